@@ -27,7 +27,8 @@ RULE = ('case = reference dataset + 1-3 compared datasets of one shape (() to 3-
         'and >= 1 bin used) or (>= 2 datasets with different reference verdicts) or a special value '
         '(NaN / inf input, or a NaN / inf statistic); distinct = structural hash of the case')
 ASSUMPTIONS = [
-    'finite non-zero values and errors have magnitude in [1e-140, 1e140]; errors are non-negative; '
+    'finite non-zero values and errors have magnitude in [1e-140, 1e140] (plus, in a sixth of the cases, '
+    'errors of 1e-170 .. 5e-324 whose squares underflow: such bins are not empty); errors are non-negative; '
     'NaN and infinities are generated only with ignore_empty=False (quantifier of the property)',
     'reference law: vlib/dist.py gamma_q (series + Lentz continued fraction), validated in setup() '
     'against tabulated values; agreement with scipy measured at <= 2e-13 relative',
@@ -72,15 +73,23 @@ def _case(draw):
     ignore = draw(st.booleans())
     special = 0 if ignore else draw(st.sampled_from([0, 0, 0, 30, 100]))
     zero = draw(st.sampled_from([0, 200, 500, 900] if ignore else [0, 0, 0, 100, 400]))
+    # errors so small that their squares underflow to 0 although they are not zero: such a
+    # bin is NOT empty (its statistic is d/0 = inf or 0/0 = nan, by IEEE arithmetic)
+    tiny = draw(st.integers(0, 5)) == 0
+
+    def err(val):
+        if tiny and draw(st.integers(0, 3)) == 0:
+            return draw(st.sampled_from(TINY_ERRORS))
+        return statgen.error(draw, val, special, zero)
     refv = [statgen.value(draw, special) for _ in range(size)]
-    refe = [statgen.error(draw, v, special, zero) for v in refv]
+    refe = [err(v) for v in refv]
     others = []
     for _ in range(nds):
         spread = draw(st.sampled_from([0.3, 0.8, 1.0, 1.3, 2.0, 4.0]))
         wild = draw(st.integers(0, 7)) == 0          # some bins get an unrelated value
         vals, errs = [], []
         for v1, e1 in zip(refv, refe):
-            e2 = statgen.error(draw, v1, special, zero)
+            e2 = err(v1)
             q = math.hypot(e1, e2) if not (math.isnan(e1) or math.isnan(e2)) else math.nan
             mode = draw(st.integers(0, 19))
             if mode == 0 and wild:
@@ -138,6 +147,9 @@ def _reference(refv, refe, othv, othe, ignore):
     return stat, len(terms), left
 
 
+TINY_ERRORS = [1e-170, 1e-200, 5e-324, 2.5e-162]
+
+
 def _domain_ok(case):
     if not 0.0 < case['alpha'] < 1.0:
         return False
@@ -148,7 +160,8 @@ def _domain_ok(case):
             return False
         if not all(statgen.in_domain(x, special) for x in dset['v']):
             return False
-        if not all(statgen.in_domain(x, special) and not x < 0.0 for x in dset['e']):
+        if not all((statgen.in_domain(x, special) or x in TINY_ERRORS) and not x < 0.0
+                   for x in dset['e']):
             return False
     return 1 <= len(case['others']) <= 3 and sorted(case['perm']) == list(range(size))
 
@@ -197,6 +210,8 @@ def _run_case(case):
                      for d in [case['ref']] + list(case['others']) for x in d['v'] + d['e'])
     if special_in:
         out.labels.append('special-input')
+    if any(x in TINY_ERRORS for dset in [case['ref']] + list(case['others']) for x in dset['e']):
+        out.labels.append('underflowing-error')
     mixed = any(left and ndf for _s, ndf, left in refs)
     if mixed:
         out.labels.append('mixed-zero-pattern')
